@@ -373,7 +373,10 @@ Definition outage_login_renewed (c : pw_case) : bool :=
    while the primary answers (mode Up) was ACCEPTED although the primary's row of the user, as
    observed just before, is absent, expired, or not a genuine current record of this user hashing
    this password *)
-Definition stale_cache_decided (c : pw_case) : bool :=
+(* [tbl] = the records as the HARNESS numbered them (the numbers the snapshots use), so that the
+   predicate does not depend on the model's own table when the implementation wrote records the
+   model would not have written *)
+Definition stale_cache_decided (tbl : list jws) (c : pw_case) : bool :=
   let '((n, extra), ops, outs, snaps) := c in
   let fix go (s : pstate) (ops : list pop) (outs : list (option bool)) (i : nat) : bool :=
     match ops, outs with
@@ -387,8 +390,8 @@ Definition stale_cache_decided (c : pw_case) : bool :=
                  | None => true
                  | Some row =>
                      negb (unexpired (now (st s)) row) ||
-                     match nth_error (jwss s) (N.to_nat (sr_data row)) with
-                     | None => true
+                     match nth_error tbl (N.to_nat (sr_data row)) with
+                     | None => false
                      | Some j => negb (jws_valid true (now (st s)) j && N.eqb (j_sub j) u && N.eqb (j_pw j) pw)
                      end
                  end
